@@ -14,9 +14,9 @@ THEOREMS = ["fasta_read_write", "fasta_rewrap_invariant", "fasta_file_lines",
             "sfetch_revcomp_U_not_involutive", "sfetch_subseq", "seqrange_partition",
             "selectn_selects", "selectn_count", "selectn_deterministic",
             "mask_length", "mask_normal", "mask_reverse", "alipid_bounds", "alipid_symmetric",
-            "shuffle_mono_permutation", "shuffle_windows_permutation", "shuffle_mono_counts", "shuffle_reproducible",
+            "shuffle_mono_permutation", "shuffle_windows_permutation", "shuffle_kmers_permutation", "shuffle_mono_counts", "shuffle_reproducible",
             "reformat_afa_shape", "reformat_no_option_identity", "reformat_upper_idempotent", "reformat_rna_then_dna",
-            "reformat_roundtrip"]
+            "reformat_roundtrip", "alistat_counts", "translate_orf_header"]
 
 SQFORMATS = ["fasta", "embl", "genbank", "uniprot", "ddbj", "daemon", "hmmpgmd", "ncbi", "fmindex"]
 MSAFORMATS = ["stockholm", "pfam", "a2m", "afa", "psiblast", "clustal", "clustallike", "selex", "phylip", "phylips"]
@@ -727,7 +727,7 @@ def ref_selectn(rng, i):
     nlines = rng.choice([0, 1, 2, 3, 5, 10, 30, 100, 400])
     lines = ["l%d %s" % (k, "x" * rng.randrange(0, 12)) for k in range(nlines)]
     if rng.random() < 0.3 and nlines > 3:
-        lines[rng.randrange(nlines)] = ""                     # empty line
+        lines[rng.randrange(nlines - 1)] = ""                 # empty line (not the last one)
         lines[rng.randrange(nlines)] = lines[0]               # duplicate line
     text = "\n".join(lines) + ("\n" if lines and rng.random() < 0.85 else "")
     m = min(nlines, rng.choice([0, 1, 2, nlines, max(0, nlines - 1), rng.randrange(0, nlines + 1)]))
@@ -767,7 +767,7 @@ def ref_reformat(rng, i):
     else:
         rows, abc = ref_msa_rows(rng)
         if rng.random() < 0.3:
-            rows = [(n, d, "".join(c if rng.random() > 0.05 else rng.choice("XxNn~") for c in s)) for n, d, s in rows]
+            rows = [(n, d, "".join(c if rng.random() > 0.05 else rng.choice("XxNn" if mode == "af" else "XxNn~") for c in s)) for n, d, s in rows]
         text, infmt, outfmt = ref_fasta_text(rng, rows), "afa", ("fasta" if mode == "af" else "afa")
     args = []
     for a, b in (("-d", "-r"), ("-l", "-u"), ("-n", "-x")):
@@ -812,7 +812,7 @@ def ref_downsample(rng, i):
         nlines = rng.choice([0, 1, 2, 3, 5, 10, 30, 100, 300])
         lines = ["l%d %s" % (k, "y" * rng.randrange(0, 12)) for k in range(nlines)]
         if nlines > 3 and rng.random() < 0.3:
-            lines[rng.randrange(nlines)] = ""
+            lines[rng.randrange(nlines - 1)] = ""
         nl = "\r\n" if rng.random() < 0.15 else "\n"
         text = nl.join(lines) + (nl if lines and rng.random() < 0.85 else "")
         m = min(nlines, rng.choice([0, 1, 2, nlines, max(0, nlines - 1), rng.randrange(0, nlines + 1)]))
@@ -858,7 +858,141 @@ def ref_sfetch(rng, i):
     return {"name": "ref-sfetch-%d-%s" % (i, mode), "ref": True, "sticky": len(ops) - 1, "ops": ops}
 
 
-REF_GENERATORS = [("esl-sfetch", ref_sfetch), ("esl-seqstat", ref_seqstat), ("esl-alirev", ref_alirev), ("esl-alipid", ref_alipid),
+def ref_translate(rng, i):
+    """DNA with degenerate residues in every canonical/degenerate pattern over the first and last four positions, stop and
+    start codons next to the ends, runs of N, lengths 3..7 and long ones (sequences shorter than a codon: known finding)"""
+    DEG = "NRYKMSWBDHV"
+    n = rng.choice([1, 1, 2, 3, 5])
+    recs = []
+    use_W = rng.random() < 0.3
+    for k in range(n):
+        L = rng.choice([3, 4, 5, 6, 7, 8, 9, 30, 61, 150, rng.randrange(3, 400), rng.randrange(3, 400)])
+        if use_W and rng.random() < 0.2:
+            L = rng.choice([4091, 4092, 4093, 4094, 4095, 8184, 8186, 9001])       # around the 4092-residue window of -W
+        style = rng.random()
+        seq = []
+        while len(seq) < L:
+            if style < 0.3 and rng.random() < 0.08:
+                seq += list(rng.choice(["TAA", "TAG", "TGA", "ATG", "ATG"]))     # more stops and starts
+            c = rng.choice("ACGT")
+            if rng.random() < 0.02: c = rng.choice(DEG + "U")
+            seq.append(c)
+        seq = seq[:L]
+        if rng.random() < 0.2 and L > 12:                                         # a run of N
+            p0 = rng.randrange(0, L - 6); ln = rng.choice([1, 2, 3, 4, 7])
+            seq[p0:p0 + ln] = list("N" * ln)
+        # the two ends: every degenerate/canonical pattern over the first and the last four positions
+        head = rng.choice([rng.randrange(16), rng.randrange(16), 3, 7, 11, 15, 1, 2])
+        tail = rng.choice([rng.randrange(16), rng.randrange(16), 3, 7, 11, 15, 1, 2])
+        for b_ in range(min(4, L)):
+            if head >> b_ & 1: seq[b_] = rng.choice(DEG)
+            if tail >> b_ & 1: seq[L - 1 - b_] = rng.choice(DEG)
+        w = rng.random()
+        if w < 0.15 and L >= 6:                                                    # stop / start right at an end
+            cod = list(rng.choice(["TAA", "TAG", "TGA", "ATG", "TTA", "CTA", "TCA", "CAT"]))
+            off = rng.choice([0, 1, 2])
+            if rng.random() < 0.5: seq[off:off + 3] = cod
+            else: seq[L - 3 - off:L - off] = cod
+        seq = [c.lower() if rng.random() < 0.05 else c for c in seq]
+        recs.append((rand_name(rng, k + 1), rng.choice(["", "a desc", "x"]), "".join(seq)))
+    args = []
+    if rng.random() < 0.5: args += ["-c", str(rng.choice([1, 1, 2, 3, 4, 5, 6, 9, 10, 11, 12, 13, 14, 16, 21, 22, 23, 24, 25]))]
+    if rng.random() < 0.7: args += ["-l", str(rng.choice([0, 0, 1, 2, 5, 10, 20, 50]))]
+    w = rng.random()
+    if w < 0.25: args.append("-m")
+    elif w < 0.5: args.append("-M")
+    w = rng.random()
+    if w < 0.2: args.append("--watson")
+    elif w < 0.4: args.append("--crick")
+    if use_W: args.append("-W")
+    args += ["--informat", "fasta", "in.fa"]
+    return {"name": "ref-translate-%d" % i, "ref": True, "sticky": 1,
+            "ops": [op_file("in.fa", ref_fasta_text(rng, recs)), op_run("esl-translate", args)]}
+
+
+def ref_alistat(rng, i):
+    rows, abc = ref_msa_rows(rng)
+    if rng.random() < 0.12:       # many rows: the average identity is then a seeded stochastic sample (N(N-1)/2 > 1000)
+        base, _ = gen_msa(rng, abc=abc, nseq=rng.choice([45, 46, 60]), alen=rng.choice([5, 12, 30]))
+        rows = [(n, "", s) for n, s in base]
+    which = rng.choice(["esl", "esl1", "easel"])
+    text = ref_fasta_text(rng, rows)
+    if which == "easel":
+        return {"name": "ref-alistat-%d-easel" % i, "ref": True, "sticky": 1,
+                "ops": [op_file("in.afa", text), op_run("easel", ["alistat", ABCFLAG[abc], "in.afa"])]}
+    args = (["-1"] if which == "esl1" else []) + ["--informat", "afa", ABCFLAG[abc], "in.afa"]
+    return {"name": "ref-alistat-%d-%s" % (i, which), "ref": True, "sticky": 1,
+            "ops": [op_file("in.afa", text), op_run("esl-alistat", args)]}
+
+
+RT_FORMATS = ["stockholm", "pfam", "clustal", "clustallike", "phylip", "phylips", "selex"]   # psiblast and a2m re-case insert columns: not an identity
+
+
+def ref_roundtrip(rng, i):
+    """afa -> <format> -> afa through the tool itself: names and residues must come back unchanged (checked by ref_monitor;
+    the Lean side has no writer model for these formats, see C03)"""
+    abc = rng.choice([DNA, "ACGU", AMINO])
+    rows, _ = gen_msa(rng, abc=abc, nseq=rng.choice([1, 2, 3, 5, 8]))
+    rows = [("%s%d" % (rng.choice(["s", "seq", "Q9", "x_"]), k + 1), s) for k, (n, s) in enumerate(rows)]     # <= 10 chars (PHYLIP)
+    fmt = rng.choice(RT_FORMATS)
+    text = afa_text(rows, rng.choice([60, 60, 13, 200]))
+    return {"name": "ref-roundtrip-%d-%s" % (i, fmt), "ref": True, "nopred_ok": True, "sticky": 1, "roundtrip": rows,
+            "ops": [op_file("in.afa", text), op_run("esl-reformat", ["--informat", "afa", fmt, "in.afa"]), "save name=mid",
+                    op_run("esl-reformat", ["--informat", fmt, "afa", "mid"])]}
+
+
+def ref_afetch(rng, i):
+    """esl-afetch <stockholm with several named alignments> <name>: the fetched record, converted to afa by the tool, has exactly
+    the rows of that alignment (with and without an SSI index)"""
+    nali = rng.choice([1, 2, 3, 5])
+    alis, text = [], ""
+    for k in range(nali):
+        abc = rng.choice([DNA, "ACGU", AMINO])
+        rows, _ = gen_msa(rng, abc=abc, nseq=rng.choice([1, 2, 3, 6]))
+        name = "%s%d" % (rng.choice(["aln", "fam_", "PF000"]), k + 1)
+        alis.append((name, rows))
+        text += stockholm_text(rows, rng, rf=rng.random() < 0.3, ss=False, name=name)
+    name, rows = rng.choice(alis)
+    ops = [op_file("in.sto", text)]
+    if rng.random() < 0.5:
+        ops.append(op_run("esl-afetch", ["--index", "in.sto"]))
+    ops += [op_run("esl-afetch", ["in.sto", name]), "save name=mid", op_run("esl-reformat", ["--informat", "stockholm", "afa", "mid"])]
+    return {"name": "ref-afetch-%d" % i, "ref": True, "nopred_ok": True, "sticky": 1, "roundtrip": rows, "ops": ops}
+
+
+def ref_weight(rng, i):
+    rows, abc = ref_msa_rows(rng)
+    if rng.random() < 0.15:
+        rows = [(n, d, s * 4) for n, d, s in rows]          # alignment longer than one 200-column Stockholm block
+    args = []
+    w = rng.random()
+    if w < 0.3: args.append("-p")
+    elif w < 0.55:
+        args.append("-b")
+        if rng.random() < 0.6: args += ["--id", rng.choice(["0.62", "0.5", "0.9", "1.0", "0.25", "0"])]
+    elif w < 0.75: args.append("-g")
+    args += ["--informat", "afa", ABCFLAG[abc], "in.afa"]
+    return {"name": "ref-weight-%d" % i, "ref": True, "sticky": 1,
+            "ops": [op_file("in.afa", ref_fasta_text(rng, rows)), op_run("esl-weight", args)]}
+
+
+def ref_filter(rng, i):
+    rows, abc = ref_msa_rows(rng)
+    if rng.random() < 0.4 and len(rows) > 2:     # near-duplicates so that something is actually removed
+        rows[2] = (rows[2][0], rows[2][1], rows[0][2])
+        rows[-1] = (rows[-1][0], rows[-1][1], rows[0][2][:-1] + rows[1][2][-1:])
+    maxid = rng.choice(["0.8", "0.5", "0.9", "1.0", "0.62", "0.25", "0.99"])
+    return {"name": "ref-filter-%d" % i, "ref": True, "sticky": 1,
+            "ops": [op_file("in.afa", ref_fasta_text(rng, rows)), op_run("easel", ["filter", "--informat", "afa", ABCFLAG[abc], maxid, "in.afa"])]}
+
+
+def ref_index(rng, i):
+    recs, abc = ref_records(rng, nseq=rng.choice([1, 2, 5, 11]), maxlen=100)
+    return {"name": "ref-index-%d" % i, "ref": True, "sticky": 1,
+            "ops": [op_file("in.fa", fasta_text(recs, rng.choice([60, 50, 7]))), op_run("easel", ["index", "in.fa"])]}
+
+
+REF_GENERATORS = [("easel index", ref_index), ("easel filter", ref_filter), ("esl-weight", ref_weight), ("esl-afetch", ref_afetch), ("roundtrip", ref_roundtrip), ("esl-alistat", ref_alistat), ("esl-translate", ref_translate), ("esl-sfetch", ref_sfetch), ("esl-seqstat", ref_seqstat), ("esl-alirev", ref_alirev), ("esl-alipid", ref_alipid),
                   ("esl-seqrange", ref_seqrange), ("esl-selectn", ref_selectn), ("esl-mask", ref_mask),
                   ("esl-reformat", ref_reformat), ("esl-shuffle", ref_shuffle), ("easel downsample", ref_downsample)]
 
@@ -886,16 +1020,19 @@ def corpus_cases(ctx):
         {"name": "corpus-shuffle-L-skip", "ref": True, "sticky": 1,
          "ops": [op_file("in.fa", ">prot1 x\na\n>seq2 x\nACg\n>n|m3\nAAACGAG\nGCTACGC\nATTAAAT\nCTAGCAC\nCTACCGT\nGGCTGCC\nGCTADGT\nGAGCATA\nACTCT\n"),
                  op_run("esl-shuffle", ["--seed", "2", "-m", "-L", "5", "--informat", "fasta", "in.fa"])]},
+        # esl-translate: a sequence shorter than a codon is skipped without esl_sq_Reuse(): it is glued in front of the next one
+        {"name": "corpus-translate-short", "ref": True, "sticky": 1, "known_key": "C13:esl-translate:short-seq-not-reused",
+         "ops": [op_file("in.fa", ">a\nCC\n>b a desc\nATTG\n"), op_run("esl-translate", ["-l", "0", "-m", "--crick", "--informat", "fasta", "in.fa"])]},
     ]
     return out
 
 
 def reference_cases(ctx):
     rng = ctx.rng
-    per = 40 if ctx.tier == "quick" else 400
+    per = 30 if ctx.tier == "quick" else 300
     out = []
     for tool, g in REF_GENERATORS:
-        for i in range(per):
+        for i in range(max(6, per // 5) if tool == "easel index" else (2 * per if tool == "esl-translate" else per)):
             out.append(g(rng, i))
     return out
 
@@ -905,6 +1042,23 @@ def ref_monitor(ctx, case, out):
     for op, l in zip(case["ops"], out):
         if op.startswith("run ") and " class=ok " not in l:
             return None if case.get("may_fail") else _fail("reference case: tool did not succeed on a valid input: " + l[:200])
+    if case.get("roundtrip") is not None and out:
+        kv = dict(w.split("=", 1) for w in out[-1].split() if "=" in w)
+        try:
+            txt = bytes.fromhex(kv.get("out", "")).decode("latin-1") if kv.get("out", "-") != "-" else ""
+        except ValueError:
+            txt = ""
+        got, cur = [], None
+        for line in txt.split("\n"):
+            if line.startswith(">"):
+                cur = [line[1:].split()[0] if line[1:].split() else "", ""]
+                got.append(cur)
+            elif cur is not None:
+                cur[1] += line.strip()
+        want = [[n, s_] for n, s_ in case["roundtrip"]]
+        if got != want:
+            return _fail("esl-reformat afa -> format -> afa did not return the original names/residues (%s): want %r got %r"
+                         % (case["name"], want[:3], got[:3]))
     return None
 
 
